@@ -150,3 +150,54 @@ def is_simple(poly) -> bool:
 def signed_area(poly) -> float:
     n = len(poly)
     return 0.5 * sum(poly[i - 1][0] * poly[i][1] - poly[i][0] * poly[i - 1][1] for i in range(n))
+
+
+# ------------------------------------------------------------------ vectorised float classifier (for bulk grids)
+def classify_many(poly, pts, tol, guard=(0.5, 2.0)):
+    """Vectorised classification of many points against one polygon: 1 inside, 0 on edge, -1 outside, 2 = guard band (not judged).
+
+    Float arithmetic is sufficient here because every judged point is either within 0.5 tol of the boundary measure (on edge)
+    or has a distance-sum excess > 2 tol, i.e. lies at least ~tol away from the boundary, where the crossing test is robust.
+    The function is cross-checked against the exact classifier `classify` on a sample in every run that uses it."""
+    import numpy as np
+
+    P = np.asarray(pts, dtype=float).reshape(-1, 2)
+    V = np.asarray([tuple(v) for v in poly], dtype=float)
+    if len(V) > 1 and tuple(V[0]) == tuple(V[-1]):
+        V = V[:-1]
+    A = np.roll(V, 1, axis=0)
+    B = V
+    px = P[:, 0][:, None]
+    py = P[:, 1][:, None]
+    da = np.hypot(px - A[:, 0][None, :], py - A[:, 1][None, :])
+    db = np.hypot(px - B[:, 0][None, :], py - B[:, 1][None, :])
+    ab = np.hypot(A[:, 0] - B[:, 0], A[:, 1] - B[:, 1])[None, :]
+    ex = np.abs(da + db - ab).min(axis=1)
+    ay, by = A[:, 1][None, :], B[:, 1][None, :]
+    ax, bx = A[:, 0][None, :], B[:, 0][None, :]
+    straddle = (ay > py) != (by > py)
+    with np.errstate(divide="ignore", invalid="ignore"):
+        xi = ax + (py - ay) * (bx - ax) / (by - ay)
+    cross = straddle & (xi > px)
+    inside = (cross.sum(axis=1) % 2) == 1
+    out = np.where(inside, 1, -1)
+    out = np.where(ex < guard[0] * tol, 0, out)
+    out = np.where((ex >= guard[0] * tol) & (ex <= guard[1] * tol), 2, out)
+    return out, ex
+
+
+def boundary_dist_many(poly, pts):
+    import numpy as np
+
+    P = np.asarray(pts, dtype=float).reshape(-1, 2)
+    V = np.asarray([tuple(v) for v in poly], dtype=float)
+    A = np.roll(V, 1, axis=0)
+    B = V
+    d = B - A
+    L2 = (d**2).sum(axis=1)
+    L2 = np.where(L2 == 0, 1.0, L2)
+    t = ((P[:, None, 0] - A[None, :, 0]) * d[None, :, 0] + (P[:, None, 1] - A[None, :, 1]) * d[None, :, 1]) / L2[None, :]
+    t = np.clip(t, 0.0, 1.0)
+    cx = A[None, :, 0] + t * d[None, :, 0]
+    cy = A[None, :, 1] + t * d[None, :, 1]
+    return np.hypot(P[:, None, 0] - cx, P[:, None, 1] - cy).min(axis=1)
